@@ -174,6 +174,11 @@ def match_finding(findings, rec):
 
 # ---- parallel map ---------------------------------------------------------------------------------------------
 def _init_worker():
+    try:
+        import resource
+        resource.setrlimit(resource.RLIMIT_AS, (6 << 30, 6 << 30))     # a runaway case must not take the machine down
+    except Exception:
+        pass
     use_repo()
     import logging
     logging.disable(logging.CRITICAL)      # pydsdl logs warnings (legacy extensions etc.); not part of any observation
